@@ -28,7 +28,7 @@ def prep_slot(k):
     return d
 
 def fresh_repo(d):
-    sh(f'rsync -a --delete --exclude target --exclude .git /repo/ {d}/repo/')
+    sh(f'rsync -rlpgoD --checksum --delete --exclude target --exclude .git /repo/ {d}/repo/')
 
 def run_one(sid, d, props, tier, confirm):
     sd = f'{SEEDED}/{sid}'
